@@ -35,6 +35,12 @@ def run(ctx):
     rng = ctx.rng
     n = 200 if ctx.tier == "quick" else 4000
     models = [dslgen.gen_wire_model(rng, degenerate=0, p_this=0.35) for _ in range(n)]
+    # conditions whose inner name is empty or differs from their map key (what a JSON document can carry): a printer
+    # that "repairs" the name would be writing into the caller's model
+    for m in list(models[:60]):
+        if m[2]:
+            cs = [[k, [S("") if i == 0 else S(T(c[0]) + "_other"), c[1], c[2], c[3]]] for i, (k, c) in enumerate(m[2])]
+            models.append([m[0], m[1], cs])
     # 1. frames
     for src in (False, True):
         ir = tf.correspond_print(ctx, models, src, "proto", "frame")
